@@ -2,6 +2,7 @@
 # run every registered quick (or $1=thorough) check sequentially; summary lines only
 cd "$(dirname "$0")/.."
 TIER=${1:-quick}
-for c in $(python3 -c "import json;print(' '.join(x['property_id'] for x in json.load(open('MANIFEST.json'))['checks']))"); do
+# CHECKS="C01 C05 ..." restricts the run to those checks
+for c in ${CHECKS:-$(python3 -c "import json;print(' '.join(x['property_id'] for x in json.load(open('MANIFEST.json'))['checks']))")}; do
   ./vcheck $c --tier $TIER 2>&1 | grep -v conda | grep -E "^\[C|^VIOLATION|^KNOWN" | cut -c1-220
 done
